@@ -24,4 +24,27 @@ PROPS = {
         "assumptions": ["theorems are over exact rationals; float64 evaluation differs by one rounding per operation (checked at 1e-12 relative on every pair case)",
                         "model ties: regenerated column/constant/converter tables + correspondence on this run's cases only"],
     },
+    "C02": {
+        "props": "TrackVerif.TA.PropsC02",
+        "streams": [("TA", 1500, 20000)],
+        "clauses": ["ta.decode", "ta.no_row_loss"],
+        "rule": "PRNG(seed) well-formed logs: column subsets/permutations of the 35 known headers (quoted or bare, LF or CRLF, "
+                "with or without final newline), 0..40 rows (up to 400 in thorough), lap markers at arbitrary positions, header/trailing comments; "
+                "plus the real 12k-line log (head and lap-boundary excerpts in quick, whole file in thorough); non-trivial = >= 3 lines; distinct by SHA-1",
+        "trusted_base": KERNEL + TIE + ["strconv / fmt.Sscanf / time.ParseDuration / encoding/csv / bufio.Scanner modelled for the grammar TrackAddict writes; other inputs are `unmodelled`"],
+        "assumptions": ["scalar parsers are modelled, not verified; their agreement with Go is checked on every generated value",
+                        "model ties: regenerated column/literal tables + correspondence on this run's cases only"],
+        "partial_notes": ["per-scalar parse∘print round trips (e.g. 'S.mmm' ↦ ms) are validated by correspondence, not yet stated as theorems"],
+    },
+    "C15": {
+        "props": "TrackVerif.TA.PropsC15",
+        "streams": [("TA", 2000, 30000)],
+        "clauses": ["ta.no_panic", "ta.no_row_loss"],
+        "rule": "PRNG(seed): 90% damaged logs (1..3 mutations of a well-formed log: deleted/duplicated field, truncated line, colon dropped, "
+                "value-less comments, blank line, stray quote, unparsable value, unknown column, random bytes, overlong line, duplicated/deleted line, "
+                "swapped characters), 10% well-formed; fixed corpus of past crashers first; non-trivial = >= 3 lines; distinct by SHA-1",
+        "trusted_base": KERNEL + TIE + ["no-panic of encoding/csv, fmt.Sscanf, time.ParseDuration, regexp, strconv on arbitrary bytes is assumed of the standard library (exercised by the mutated stream)",
+                                        "invalid UTF-8 is outside the String-based model: only crash-freedom is checked there"],
+        "assumptions": ["the model has a panic branch wherever the Go code indexes/slices (parts[1], s.Laps[len-1], data[i]); that list was read from the four anchored files"],
+    },
 }
